@@ -166,6 +166,10 @@ Definition show_comp_file (tpb : Z) (tracks : list (list mev)) (groups : list (l
   match comp_from_file tpb tracks groups metas mi with
   | Err e => "!" ++ show_err e
   | Ok c => show_comp c ++ "#" ++ show_res (fun l => sjoin "|" (map show_seq l)) (comp_to_sequences c)
+            (* Composition.save(path) = sequences_save(to_sequences()); then loaded again with the defaults *)
+            ++ "#" ++ show_seqs (do seqs <- comp_to_sequences c;
+                                 do rels <- mapM (fun s => do '(_, r) <- get_rel s; Ok r) seqs;
+                                 save_load rels)
   end.
 
 (* outputs of every step, then object t and every object from index `from` on (the rest of the store is not shown:
